@@ -341,6 +341,8 @@ pub fn run(tier: Tier, cli: &str) {
                         if run == 0 {
                             // the same tree compiled before with another prefix; the grammar file is older than its
                             // generated neighbour (the usual state of a source tree)
+                            // (first run: the grammar is the newest file, as after an edit; then it is made the oldest)
+                            let _ = filetime::set_file_mtime(&sub, filetime::FileTime::from_unix_time(4_000_000_000, 0));
                             let o1 = Command::new(&exe).arg("c16gen").arg("dir").arg(gdir.join("d")).arg("use std::cmp;").args(&dargs).stdout(Stdio::null()).stderr(Stdio::null()).status().unwrap();
                             if o1.success() {
                                 let _ = filetime::set_file_mtime(&sub, filetime::FileTime::from_unix_time(1_000_000_000, 0));
